@@ -11,9 +11,19 @@ import (
 
 // check16: read_listing(LoadCode(w)) == w.
 func (c *Ctx) check16(code []g.Instruction, start int, M uint64, legacy bool) {
+	c.check16m(code, start, M, legacy, false)
+	if !legacy && (start+len(code))%2 == 0 {
+		c.check16m(code, start, M, legacy, true)
+	}
+}
+
+func (c *Ctx) check16m(code []g.Instruction, start int, M uint64, legacy bool, nop94 bool) {
 	rep := c.Rep
 	rep.States++
 	t := &textCase{M: M, Legacy: legacy, Code: hx.CoreStr(code), Start: start}
+	if nop94 {
+		t.Note = "mode NOP94"
+	}
 	fail := func(kind, detail string) {
 		if rep.Hit("C16", kind) {
 			rep.Add("C16", kind, t.witness(), detail)
@@ -27,7 +37,11 @@ func (c *Ctx) check16(code []g.Instruction, start int, M uint64, legacy bool) {
 				pan = fmt.Sprint(p)
 			}
 		}()
-		sim, err := g.NewSimulator(cfgOf(M, legacy))
+		cfg := cfgOf(M, legacy)
+		if !legacy && nop94 {
+			cfg.Mode = g.NOP94 // the third mode value: a '94 dialect, listed like ICWS94
+		}
+		sim, err := g.NewSimulator(cfg)
 		if err != nil {
 			pan = "config rejected: " + err.Error()
 			return
@@ -111,7 +125,7 @@ func (c *Ctx) RunC16(tier string) {
 			}
 		}
 	}
-	rep.Bound = fmt.Sprintf("per dialect: every legal instruction form x every field pair for M in %v; boundary fields {0,1,M/2,M/2+1,M-1} for M in {80,8000,8192}; all 2- and 3-instruction warriors over a 12-form alphabet with every entry point", small)
+	rep.Bound = fmt.Sprintf("per dialect (ICWS88, ICWS94, and NOP94 for half of the '94 warriors): every legal instruction form x every field pair for M in %v; boundary fields {0,1,M/2,M/2+1,M-1} for M in {80,8000,8192}; all 2- and 3-instruction warriors over a 12-form alphabet with every entry point", small)
 	sim, _ := g.NewSimulator(cfgOf(8000, false))
 	w, _ := sim.AddWarrior(&g.WarriorData{Code: alphabet12(false, 8000)[1:4], Start: 1})
 	rep.Sample(w.LoadCode())
